@@ -467,12 +467,83 @@ pub fn gen_value_spec(rng: &mut Rng, prop: Prop) -> ValueSpec {
         _ => 1,
     };
     match prop {
-        Prop::C12 => ValueSpec::Versions { shape, items: (0..n).map(|_| gen_vsrc(rng)).collect() },
+        Prop::C12 => {
+            let mut items: Vec<VSrc> = Vec::new();
+            for _ in 0..n {
+                let sib = if !items.is_empty() && rng.below(3) == 0 {
+                    let k = rng.usize_below(items.len());
+                    sibling_version(rng, &items[k])
+                } else {
+                    None
+                };
+                items.push(sib.unwrap_or_else(|| gen_vsrc(rng)));
+            }
+            ValueSpec::Versions { shape, items }
+        }
         Prop::C13 => {
             let depth = if shape == Shape::One { 2 } else { 1 };
-            ValueSpec::Ranges { shape, items: (0..n).map(|_| gen_rsrc(rng, depth)).collect() }
+            let mut items: Vec<RSrc> = Vec::new();
+            for _ in 0..n {
+                let sib = if !items.is_empty() && rng.below(3) == 0 {
+                    let k = rng.usize_below(items.len());
+                    sibling_range(rng, &items[k])
+                } else {
+                    None
+                };
+                items.push(sib.unwrap_or_else(|| gen_rsrc(rng, depth)));
+            }
+            ValueSpec::Ranges { shape, items }
         }
     }
+}
+
+/// A value that a too-coarse notion of sameness (Version's `==` ignores build metadata; a
+/// normalising key ignores spelling) would confuse with `of`: same version, other build
+/// metadata / other spelling / the very same text again.
+pub fn sibling_version(rng: &mut Rng, of: &VSrc) -> Option<VSrc> {
+    let text = match of {
+        VSrc::Text(t) => t.clone(),
+        VSrc::Fields(m) => canonical_text(m),
+        VSrc::Tuple { .. } => return None,
+    };
+    let core = text.split('+').next().unwrap_or(&text).to_string();
+    let out = match rng.below(5) {
+        0 => text,
+        1 => core,
+        2 => format!("{}+{}", core, rng.pick(&["b", "build.2", "0", "sib-1.x"])),
+        3 => format!("{}+{}", core, rng.below(1000)),
+        _ => {
+            let t = core.trim_start_matches(|c: char| c == 'v' || c == 'V' || c.is_whitespace());
+            format!("v{}", t)
+        }
+    };
+    if out.len() <= MAX_LENGTH {
+        Some(VSrc::Text(out))
+    } else {
+        None
+    }
+}
+
+pub fn sibling_range(rng: &mut Rng, of: &RSrc) -> Option<RSrc> {
+    let text = match of {
+        RSrc::Text(t) => t.clone(),
+        _ => return None,
+    };
+    let ends_in_full_version = {
+        let last = text.trim_end().rsplit(|c: char| c == ' ' || c == '|').next().unwrap_or("");
+        last.matches('.').count() >= 2
+            && last.bytes().last().map(|b| b.is_ascii_alphanumeric()).unwrap_or(false)
+            && !last.contains('+')
+            && !last.contains('x')
+            && !last.contains('X')
+            && !last.contains('*')
+    };
+    Some(RSrc::Text(match rng.below(4) {
+        0 => text,
+        1 if ends_in_full_version => format!("{}+{}", text.trim_end(), rng.pick(&["b", "build.2", "7"])),
+        2 => format!(" {} ", text),
+        _ => text.replace("||", " || "),
+    }))
 }
 
 // ------------------------------------------------------------------------------------------------
